@@ -149,13 +149,15 @@ theorem xfer_spec (m m' : Accts) (env : Env) (f t : Hash) (amt : Int) (ir : Bool
         simp only [Bool.false_eq_true, if_false]
         rw [ht1]; simp [debit]
 
-/-- the property's own restrictions on arguments (C01 quantifier) -/
+/-- the property's own restrictions on arguments (C01 quantifier): Alphabet-only methods get
+20-byte addresses; a lock target holds no funds (a fresh address, or an empty record `⟨0,_,_⟩`
+left there e.g. by somebody's zero-amount transfer — `Lock` overwrites that record) -/
 def WFOp (s : State) : Op → Prop
   | .transfer _ _ _ => True
   | .transferX f t _ _ => f.length = 20 ∧ t.length = 20
   | .mint t _ _ => t.length = 20
   | .burn f _ _ => f.length = 20
-  | .lock _ f t _ _ => f.length = 20 ∧ t.length = 20 ∧ t ∉ s.accts.map (·.1)
+  | .lock _ f t _ _ => f.length = 20 ∧ t.length = 20 ∧ (getAcc s.accts t).bal = 0
   | .newEpoch _ => True
 
 /-- every lock account's refund address is a well-formed account address -/
@@ -165,6 +167,15 @@ structure BInv (s : State) : Prop where
   uniq : Uniq s.accts
   nonneg : Nonneg s.accts
   sum : s.supply = total s.accts
+
+/-- a fresh address holds nothing -/
+theorem fresh_bal_zero (m : Accts) (t : Hash) (h : t ∉ m.map (·.1)) : (getAcc m t).bal = 0 := by
+  rw [getAcc_absent m t h]; rfl
+
+/-- the old quantifier (fresh lock target) is a special case of the current one -/
+theorem wfOp_lock_of_fresh (s : State) (d : List Nat) (f t : Hash) (amt till : Int)
+    (hf : f.length = 20) (ht : t.length = 20) (h : t ∉ s.accts.map (·.1)) :
+    WFOp s (.lock d f t amt till) := ⟨hf, ht, fresh_bal_zero s.accts t h⟩
 
 theorem debit20 (h : Hash) (amt : Int) (hl : h.length = 20) : debit h amt = amt := by simp [debit, hl]
 theorem debit_nil (amt : Int) : debit [] amt = 0 := by simp [debit]
@@ -258,7 +269,7 @@ theorem inv_step_basic (s : State) (env : Env) (op : Op) (h : BInv s) (hw : WFOp
           have hu0 := uniq_set s.accts t ⟨0, till, f⟩ hu
           have hn0 := nonneg_set s.accts t ⟨0, till, f⟩ hn (by simp)
           have ht0 : total (setAcc s.accts t ⟨0, till, f⟩) = total s.accts := by
-            rw [total_set _ _ _ hu, getAcc_absent _ _ hw.2.2]; simp [Account.empty]
+            rw [total_set _ _ _ hu, hw.2.2]; simp
           obtain ⟨hu', hn', _, ht, _⟩ := xfer_spec _ _ _ _ _ _ _ _ _ hu0 hn0 hx
           rw [← hstep.1]
           exact ⟨hu', hn', by show s.supply = total m; rw [ht, ht0, debit20 f amt hw.1, debit20 t amt hw.2.1, hs]; omega⟩
